@@ -6,7 +6,7 @@ A script is a list of tuples; the same alphabet is understood by the Coq model
   ("open",) ("close",) ("send", k, pol) ("send2", k1, pol1, k2, pol2)
   ("adv", ticks) ("net", accept, latency_ticks) ("eof",) ("rst",)
   ("frame", j) ("bad", kind) ("failw",) ("reset",) ("subraise", flag)
-and, outside the model (monitors only): ("bp", on) ("subsend", k, pol) ("sendclose", k, pol) ("trunc", j, cut) ("burn", next_id) ("cancelsends",) ("cancelclose",) ("lostparked",) ("subsenddown", k, pol)
+and, outside the model (monitors only): ("bp", on) ("subsend", k, pol) ("sendclose", k, pol) ("trunc", j, cut) ("burn", next_id) ("cancelsends",) ("cancelclose",) ("lostparked",) ("subsenddown", k, pol) ("slowclose", ticks)
 
 The result is one list of canonical events per stimulus.
 """
@@ -435,6 +435,10 @@ class SockRunner:
             net.on_client_close = hook
         elif kind == "lostparked":
             pass        # marker for the monitors: the next stimulus kills the link while drain loops are suspended
+        elif kind == "slowclose":
+            # from now on a close() by the client completes st[1] ticks later (the peer takes a moment to finish closing):
+            # wait_closed() stays suspended meanwhile and timers can fire inside the tear-down; outside the model
+            net.close_delay_ticks = int(st[1])
         elif kind == "burn":
             # consume packet ids (public header factory) until the next send gets id st[1]: puts the wrap of the
             # 256-value counter inside the scenario; outside the model, monitors only
